@@ -24,6 +24,8 @@ ISA = {
     'LoginDisconnect': {'LoginDisconnect', 'ConnectionFailure', 'Exception'},
     'InvalidState': {'InvalidState', 'ConnectionFailure', 'Exception'},
     'ValueError': {'ValueError', 'Exception'},
+    'OSError': {'OSError', 'Exception'},
+    'BrokenPipeError': {'BrokenPipeError', 'OSError', 'Exception'},
     'unknown': {'Exception'},
 }
 ORIGINS = [
@@ -34,6 +36,14 @@ ORIGINS = [
     ('decoder:truncated-field', 'play'), ('decoder:overlong-varint', 'play'),
     ('decoder:corrupt-zlib', 'play'), ('decoder:wrong-inflated-size', 'play'),
     ('outgoing-listener', 'play'), ('exit-callback', 'play'),
+    # the status phase of version negotiation (connect() with several
+    # allowed versions) has its own reactor and its own notion of which
+    # failures are not fatal (end-of-stream -> documented fallback)
+    # (an ORDINARY listener of the status response runs after the reaction
+    # has already opened the login connection - not a fault 'in' that phase)
+    ('early-listener', 'negotiate'),
+    ('reaction-status-empty', 'negotiate'),
+    ('reaction-status-json', 'negotiate'),
 ]
 FINALS = ['none', 'false', 'return', 'raise:A', 'raise:C']
 ENUM_HANDLERS = [
@@ -75,12 +85,18 @@ def scenario_for(seed, index, tier):
         (origin, state), final, chain = en[index]
         chain = copy.deepcopy(chain)
         proto = 757 if index % 3 else common.pick_proto(rng, sup)
-        exc0 = ['A', 'B', 'C'][index % 3]
+        exc0 = (['A', 'OSError', 'BrokenPipeError'] if state == 'negotiate'
+                else ['A', 'B', 'C'])[index % 3]
     else:
         origin, state = rng.choice(ORIGINS)
         final = rng.choice(FINALS + ['raise:B'])
         proto = common.pick_proto(rng, sup)
-        exc0 = rng.choice(['A', 'B', 'C'])
+        # OSError family only from incoming listeners: in the write phase
+        # pyCraft deliberately treats I/O errors differently (they are held
+        # back and dropped if a disconnect packet follows)
+        exc0 = rng.choice(['A', 'B', 'C', 'OSError', 'BrokenPipeError']
+                          if origin in ('early-listener', 'listener')
+                          else ['A', 'B', 'C'])
         chain = []
         for _ in range(rng.randint(0, 4)):
             chain.append({
@@ -88,7 +104,7 @@ def scenario_for(seed, index, tier):
                                      ['Exception'], ['KeyError'],
                                      ['LoginDisconnect'],
                                      ['ConnectionFailure'], ['ValueError'],
-                                     ['InvalidState']]),
+                                     ['InvalidState'], ['OSError']]),
                 'early': rng.random() < 0.3,
                 'do': rng.choice(['return', 'return', 'raise:A', 'raise:B',
                                   'raise:C', 'reconnect'])})
@@ -133,6 +149,8 @@ def build_server(sc):
         first['login'] = [['disconnect', '{"text":"no entry"}']]
     elif origin == 'reaction-status-json':
         first['status'] = {'mode': 'reply', 'json': '{not json'}
+    elif origin == 'reaction-status-empty':
+        first['status'] = {'mode': 'reply', 'json': '{}'}
     elif origin.startswith('decoder:'):
         kind = origin.split(':')[1]
         if kind in ('corrupt-zlib', 'wrong-inflated-size'):
@@ -236,6 +254,7 @@ def execute(scenario, tape):
         class C(Exception):
             pass
         CLS = {'A': A, 'B': B, 'C': C, 'Exception': Exception,
+               'OSError': OSError, 'BrokenPipeError': BrokenPipeError,
                'KeyError': KeyError, 'ValueError': ValueError,
                'LoginDisconnect': X.LoginDisconnect,
                'ConnectionFailure': X.ConnectionFailure,
@@ -300,8 +319,12 @@ def execute(scenario, tape):
             st['exits'] += 1
             if scenario['origin'] == 'exit-callback':
                 raise_origin()
+        allowed = [scenario['proto']]
+        if scenario['state'] == 'negotiate':
+            allowed.append(next(p for p in common.supported()
+                                if p != scenario['proto']))
         conn = Connection('sim.example', 25565, username='thrower',
-                          allowed_versions=[scenario['proto']],
+                          allowed_versions=allowed,
                           handle_exception=final, handle_exit=on_exit)
         w.conn = conn
         for h in scenario['handlers']:
@@ -310,6 +333,7 @@ def execute(scenario, tape):
                 early=h['early'])
         origin, state = scenario['origin'], scenario['state']
         trigger = {'status': cb.status.ResponsePacket,
+                   'negotiate': cb.status.ResponsePacket,
                    'login': cb.login.LoginSuccessPacket,
                    'play': cb.play.KeepAlivePacket}[state]
         if origin in ('early-listener', 'listener'):
@@ -391,6 +415,8 @@ def check(scenario, w, st, res, ids):
         e0 = 'LoginDisconnect'
     elif origin == 'reaction-status-json':
         e0 = 'ValueError'
+    elif origin == 'reaction-status-empty':
+        e0 = 'OSError'
     else:
         e0 = 'unknown'
     calls, last, reraise, reconnected = model(scenario, e0)
@@ -416,7 +442,8 @@ def check(scenario, w, st, res, ids):
                 return lab
         return None if e is None else 'unlabelled:%s' % type(e).__name__
     raised = first.exc
-    if origin in ('reaction-login-disconnect', 'reaction-status-json') or \
+    if origin in ('reaction-login-disconnect', 'reaction-status-json',
+                  'reaction-status-empty') or \
             origin.startswith('decoder:'):
         # E0 was created inside pyCraft: label it by position
         if st['objs'] and st['objs'][0][1] != 'E0':
@@ -470,7 +497,7 @@ def check(scenario, w, st, res, ids):
             V.append(('C14/reconnect-afterwards-no-clean-exit', None))
     else:
         ob()
-        if len(apps) < 2 or not apps[1].reached_play:
+        if len(apps) < 2 or not any(a.reached_play for a in apps[1:]):
             V.append(('C14/handler-reconnect-did-not-proceed',
                       {'conns': len(apps)}))
     res.probes['origin:' + origin] = 1
